@@ -75,6 +75,28 @@ def simplify_plan(plan, test):
         tests += 1
         if test(q):
             p = q
+    if "nthreads" in p:
+        # C14: keep only threads that still have calls, numbered densely; then shrink the switch list
+        used = sorted(set(op.get("t", 0) for op in p["ops"]))
+        if used and len(used) < p["nthreads"]:
+            q = copy.deepcopy(p); m = {t: i for i, t in enumerate(used)}
+            for op in q["ops"]:
+                op["t"] = m[op.get("t", 0)]
+            q["nthreads"] = max(1, len(used))
+            q["switches"] = [[a, m[t], f] for a, t, f in [(x + [0])[:3] for x in q.get("switches", [])] if t in m]
+            tests += 1
+            if test(q):
+                p = q
+        if p.get("switches"):
+            def test_sw(sw):
+                q = dict(p); q["switches"] = sw
+                return test(q)
+            tests += 1
+            if test_sw([]):
+                p["switches"] = []
+            else:
+                sw, t = core.ddmin(p["switches"], test_sw, 120)
+                p["switches"] = sw; tests += t
     for i in range(len(p["ops"])):
         for key in ("f", "sf"):
             if key in p["ops"][i]:
@@ -143,7 +165,8 @@ def signature_of(plans, cls):
 
 # ------------------------------------------------------------------ batches
 class Batch:
-    def __init__(self, name, exe, prop, cfg, seed, count, secs, workers, twice=False, samples=False, start=0):
+    def __init__(self, name, exe, prop, cfg, seed, count, secs, workers, twice=False, samples=False, start=0, extra=None):
+        self.extra = extra      # callable(worker index) -> extra argv
         self.name, self.exe, self.prop, self.cfg, self.seed = name, exe, prop, cfg, seed
         self.count, self.secs, self.workers, self.twice, self.samples, self.start = count, secs, workers, twice, samples, start
         self.results = []
@@ -168,6 +191,8 @@ class Batch:
                 c.append("--twice")
             if self.samples and w == 0:
                 c.append("--samples")
+            if self.extra:
+                c += self.extra(w)
             cmds.append(c)
         t0 = time.time()
         outs = core.run_workers(cmds, timeout=(self.secs or 600) * 4 + 120)
